@@ -17,3 +17,4 @@ INVARIANT C20_ErrorRaises
 INVARIANT C20_NoPartial
 PROPERTY C09_RepopRule
 INVARIANT C20_NoLeak
+PROPERTY RefinesCore
